@@ -333,7 +333,8 @@ func intMul(a, b Int) Object {
 		absB = -b
 	}
 	// A crude but effective test!
-	if absA <= sqrtIntMax && absB <= sqrtIntMax {
+	// (-IntMin overflows back to IntMin, so IntMin must take the big path)
+	if a != IntMin && b != IntMin && absA <= sqrtIntMax && absB <= sqrtIntMax {
 		return Int(a * b)
 	}
 	aBig := big.NewInt(int64(a))
